@@ -174,8 +174,7 @@ class SeriesJob:
                 if ok:
                     c, T, C = br
                     lhs, rhs = g.args(c)
-                    inner = g.args(lhs)[0] if g.op(lhs) == "FABS" else lhs
-                    ok = g.op(inner) == "INPUT" and g.op(rhs) == "CONST" and g.payload(rhs) == EPS
+                    ok = g.op(lhs) == "FABS" and g.op(g.args(lhs)[0]) == "INPUT" and g.op(rhs) == "CONST" and g.payload(rhs) == EPS
                 R.append(Result(self.id, f"{key}: switch is if_else(|x| < 1e-3, Taylor branch, closed-form branch)", PROVED if ok else REFUTED, "STRUCT", "", 0.0,
                                 "structure and threshold as stated" if ok else "unexpected graph structure / threshold", None if ok else {"inputs": {"entry": key}}, 1))
                 if not ok:
